@@ -148,6 +148,8 @@ FIXED_REQUESTS = [
     "/d.dods?a[x]", "/d.dods?nope", "/d", "/d.foo", "/d.dods?a[1:2:3:4]", "/d.dods?s&s.zz>1", "/d.dods?s&s.i>",
     "/d.dods?nofunc(a)", "/d.dods?a[20:30]", "/d.dods?t", "/d.ascii?t[0:1]", "/d.das?a", "/d.dods?u[1:3]", "/d.dods?k",
     "/d.dods?mean(s,0)", "/d.dods?s.w&s.w=\"bc\"", "/d.dods?a,a", "/d.dods?g.gx,g.g", "/d.ascii?s&s.i<4&s.i>0",
+    # shorthand names (a nested variable named without its container) beside a function call
+    "/d.dods?p,mean(b,0)", "/d.dds?q,mean(g,1)", "/d.ascii?r,mean(a)", "/d.dods?i,mean(b,1)",
 ]
 
 
